@@ -268,7 +268,10 @@ class MetadorNode(wrapt.ObjectProxy):
         if self.acl[NodeAcl.local_only]:
             # raise exception (illegal non-local access)
             self._guard_acl(NodeAcl.local_only, "parent")
-        return self._self_container
+        mc = self._self_container
+        missing = {k.name: True for k, v in self.acl.items() if v and not mc.acl[k]}
+        # the container handed out must be at least as restricted as this node
+        return mc._restricted_view(**missing) if missing else mc
 
 
 class MetadorDataset(MetadorNode):
@@ -560,7 +563,19 @@ class MetadorContainer(MetadorGroup):
     @property
     def metador(self) -> MetadorContainerTOC:
         """Access interface to Metador metadata object index."""
-        return self._self_toc
+        # queries start at this wrapper, so that results inherit its restrictions
+        return WithDefaultQueryStartNode(self._self_toc, self)
+
+    def _restricted_view(self, **flags) -> MetadorContainer:
+        """Return another wrapper of the same container with additional restrictions.
+
+        The returned wrapper shares the opened container and the TOC with this one.
+        """
+        view = MetadorContainer.__new__(MetadorContainer)
+        inherited = {k.name: True for k, v in self.acl.items() if v}
+        MetadorGroup.__init__(view, view, self.__wrapped__, **{**inherited, **flags})
+        view._self_toc = self._self_toc
+        return view
 
     def __init__(
         self,
